@@ -4,6 +4,7 @@ package machine
 
 //verif:go * drop
 //verif:mode fork
+//verif:panics violation
 //verif:notimers
 //verif:override github.com/pancsta/asyncmachine-go/pkg/machine.randId verifRandId
 
@@ -25,18 +26,26 @@ func verifSublist(names S) S {
 // verifBits hands out the bits of the case parameter "schema" one by one when it is set (the driver
 // enumerates schemas as a case split); otherwise every bit is a fresh symbolic boolean.
 type verifBits struct {
-	code int
-	pos  uint
-	sym  bool
+	code  int
+	pos   uint
+	sym   bool
+	pbits uint // the first pbits bits come from pval (sharding of the symbolic space)
+	pval  int
 }
 
 func newVerifBits() *verifBits {
 	c := vParam("schema", -1)
-	return &verifBits{code: c, sym: c < 0}
+	return &verifBits{code: c, sym: c < 0, pbits: uint(vParam("pbits", 0)), pval: vParam("pval", 0)}
 }
 
 func (b *verifBits) next() bool {
 	if b.sym {
+		if b.pos < b.pbits {
+			r := b.pval&(1<<b.pos) != 0
+			b.pos++
+			return r
+		}
+		b.pos++
 		return vBool()
 	}
 	r := b.code&(1<<b.pos) != 0
@@ -216,5 +225,6 @@ func verifReachable(schema Schema, want S) bool {
 		}
 		frontier = next
 	}
+	vLog("unreachable-prestate", 1)
 	return false
 }
